@@ -4,7 +4,7 @@ CHECK = {
         "a fresh, never reused instance of the underlying library (compress/gzip, compress/zlib, klauspost/compress/zstd, andybalholm/brotli, golang/snappy) is a correct codec for the algorithm the HTTP name denotes (gzip=RFC 1952, deflate=zlib RFC 1950, br, zstd, snappy framing format); it is the oracle for what the wrappers in internal/compression do around it",
         "single-goroutine use of one instance (as a pool hands it out); no concurrent use of the same instance",
         "operations on an instance that was never Reset (Read/Write/Close before the first Reset) are outside the pooled protocol: a panic there is recorded as an outcome, not as a violation",
-        "histories with several corrupt decodes are instantiated with the diagonal and with the product of behaviour-class representatives (thorough: full product for two corrupt decodes up to length 3), not with the full product of all corruptions",
+        "histories with several corrupt decodes are instantiated with the diagonal and with the product of behaviour-class representatives (thorough: full product of all corruptions for two corrupt decodes up to length 3, *bytes.Buffer source), not with the full product of all corruptions",
         "the names the reference peers register with connect-go are read from the source of server.go / client.go (call sites of connect.WithCompression / WithAcceptCompression / WithSendCompression); the end-to-end use of these registrations is C01's subject",
     ],
     "manifest": {
@@ -20,7 +20,7 @@ CHECK = {
             "harness": ["compression/c20_hist_test.go"],
             "test": "^TestVerifC20Hist$",
             "shards": {"quick": 16, "thorough": 16},
-            "budget_s": {"quick": 45, "thorough": 480},
+            "budget_s": {"quick": 50, "thorough": 500},
         },
         {
             "name": "c20-agree", "pkg": "internal/app/referenceserver",
